@@ -142,7 +142,9 @@ def run_property(prop, tier, seed, replay_path=None):
     # VERIF_SKIP_COQ=1 is for the mutation tooling only (tools/mutrun.py, tools/mutone.py): the proof obligations do not
     # depend on /repo, so re-checking them for each of a thousand mutants of /repo would only burn time. Never set by the
     # commands registered in MANIFEST.json.
-    skip_coq = os.environ.get("VERIF_SKIP_COQ") == "1"
+    skip_coq = os.environ.get("VERIF_SKIP_COQ") == "1" and os.path.realpath(common.OUTDIR) != os.path.realpath(common.VERIF)
+    # (the switch is ignored unless evidence and replays are redirected away from /verif: a run that writes /verif/evidence
+    # always re-checks the proofs)
     coq_ok, coq_log = (True, "") if skip_coq else build_coq()
     gate = grep_gate()
     proof_ok, theorems, examples, pa_text = False, [], [], ""
